@@ -16,7 +16,7 @@ RULE = ("clique_equation(tau) with tau-1 distinct symbols and chordless_cycle_eq
         "Q(n,k) for larger n against an independent recursion validated against that enumeration; "
         "number_of_connected_graphs for every labelled substrate graph, focal vertex, vertex subset and k against "
         "bit-mask enumeration; non-trivial = one (function, argument) pair with a non-zero expected value")
-BOUNDS = {"quick": "tau 2..6 (distinct symbols, all equal, and every pattern of equalities); cycles 3..10; Q, QQ: n 1..6 all k by enumeration, Q: n 7..22 all k by reference "
+BOUNDS = {"quick": "tau 2..6 (distinct symbols, all equal, and every pattern of equalities); cycles 3..12; Q, QQ: n 1..6 all k by enumeration, Q: n 7..22 all k by reference "
                    "recursion; counter: all labelled graphs on <= 4 vertices",
           "thorough": "tau 2..7; cycles 3..14; Q by enumeration to n=7; counter: all labelled graphs on <= 5 vertices"}
 ASSUMPTIONS = ["for n >= 7 (8 in thorough) Q(n,k) is compared with a reference recursion (exponential formula over the "
@@ -28,7 +28,7 @@ ASSUMPTIONS = ["for n >= 7 (8 in thorough) Q(n,k) is compared with a reference r
 def instances(tier, seed):
     for tau in range(2, (7 if tier == "quick" else 8)):
         yield {"kind": "clique", "tau": tau}
-    for n in range(3, (11 if tier == "quick" else 15)):
+    for n in range(3, (13 if tier == "quick" else 15)):
         yield {"kind": "cycle", "n": n}
     for n in range(1, (7 if tier == "quick" else 8)):
         yield {"kind": "Qenum", "n": n}
@@ -214,13 +214,14 @@ def run_instance(inst, tier):
         import networkx as nx
         from gcmpy.message_passing.number_connected_graphs import number_of_connected_graphs
         n = inst["n"]
-        for mask in inst["masks"]:
-            edges = enumr.mask_edges(n, mask)
+        labelings = [list(range(n))] + ([[7, 3, 12, 5][:n]] if n <= 3 else [])   # also non-contiguous, unsorted labels
+        for mask, lab in [(m, l) for m in inst["masks"] for l in labelings]:
+            edges = [(lab[a], lab[b]) for a, b in enumr.mask_edges(n, mask)]
             G = nx.Graph()
-            G.add_nodes_from(range(n))
+            G.add_nodes_from(lab)
             G.add_edges_from(edges)
-            for i in range(n):
-                others = [v for v in range(n) if v != i]
+            for i in lab:
+                others = [v for v in lab if v != i]
                 for r in range(0, n):
                     for ak in itertools.combinations(others, r):
                         sub = set(ak) | {i}
